@@ -2,7 +2,7 @@
    (all types, all buffers and sizes, all object contents), refused serializations write nothing, only documented errors,
    the decoded observable does not depend on what the destination held (it equals Codec/Walker.v's value semantics),
    C++ vectors are replaced, the C++14 union emulation keeps exactly one live alternative. *)
-From Verif Require Import Wire WireThm Walker WalkerSafe.
+From Verif Require Import Wire WireThm Walker WalkerSafe Gen_C01 GenC01Thm.
 From Coq Require Import Lia ZifyBool ZifyNat ZifyN.
 Local Open Scope nat_scope.
 Ltac Zify.zify_post_hook ::= Z.div_mod_to_equations.
@@ -41,30 +41,46 @@ Qed.
 (* =====================================================  deserialization: bounds  ===================================================== *)
 Section DesBounds.
   Variable c : cfg.
-  Hypothesis Hc : cap_ok c.
+  Hypothesis Hc : cap_sound c.
   Variable capB : nat.
-  Let okb := acc_ok capB.
+  (* accesses in bounds, and - in the rendering that clamps the nested pointer - every pointer formed inside [buffer, buffer+size] *)
+  Definition okp (a : acc) : bool := acc_ok capB a && (if ptr_clamp c then ptr_ok capB a else true).
+  Let okb := okp.
+
+  Lemma okb_br lo hi : hi <= capB -> okb (BR lo hi) = true.
+  Proof.
+    intros H. unfold okb, okp. cbn [acc_ok ptr_ok]. replace (hi <=? capB) with true by (symmetry; apply Nat.leb_le; exact H).
+    destruct (ptr_clamp c); reflexivity.
+  Qed.
+  Lemma okb_oa s n : n <= s -> okb (OA s n) = true.
+  Proof.
+    intros H. unfold okb, okp. cbn [acc_ok ptr_ok]. replace (n <=? s) with true by (symmetry; apply Nat.leb_le; exact H).
+    destruct (ptr_clamp c); reflexivity.
+  Qed.
+  Lemma okb_bp cap o : cap <= 8 * capB -> okb (BP (ptr_at c cap o)) = true.
+  Proof.
+    intros H. unfold okb, okp, ptr_at. cbn [acc_ok ptr_ok andb]. destruct (ptr_clamp c); [|reflexivity]. apply Nat.leb_le. lia.
+  Qed.
+  Lemma chk_cap_le_ov e cp : chk_cap c e cp <= ov c e cp.
+  Proof. unfold chk_cap. destruct Hc as [H|H]; [rewrite H; lia | destruct (len_chk_storage c); [lia | apply H]]. Qed.
 
   Lemma rd_log_ok cap off w : cap <= 8 * capB -> forallb okb (rd_log cap off w) = true.
   Proof.
     intros H. unfold rd_log. destruct (Nat.min w (cap - Nat.min cap off) =? 0) eqn:E; [reflexivity|].
-    cbn [forallb okb acc_ok andb]. rewrite Bool.andb_true_r. apply Bool.orb_true_iff. left.
-    apply Nat.leb_le. unfold bytes_hi. apply Nat.eqb_neq in E. lia.
+    cbn [forallb]. rewrite okb_br; [reflexivity|]. unfold bytes_hi. apply Nat.eqb_neq in E. lia.
   Qed.
 
-  Lemma rp_log_ok p cap off : prim_wf p = true -> cap <= 8 * capB -> forallb okb (rp_log p cap off) = true.
+  Lemma rp_log_ok p cap off : prim_wf p = true -> cap <= 8 * capB -> forallb okb (rp_log c p cap off) = true.
   Proof.
     intros Hwf H. pose proof (rd_log_ok cap off (prim_bits p) H) as Hr.
     destruct p; cbn [rp_log]; try exact Hr; try reflexivity.
-    - destruct (off <? cap) eqn:E; [|reflexivity]. cbn [forallb okb acc_ok andb]. rewrite Bool.andb_true_r.
-      apply Bool.orb_true_iff. left. apply Nat.leb_le. apply Nat.ltb_lt in E. lia.
-    - destruct ((off mod 8 =? 0) && (prim_bits (PU w sat) <=? 8)) eqn:Ea; [|exact Hr].
+    - destruct (off <? cap) eqn:E; [|reflexivity]. cbn [forallb]. rewrite okb_br; [reflexivity|]. apply Nat.ltb_lt in E. lia.
+    - destruct (al c off && (prim_bits (PU w sat) <=? 8)) eqn:Ea; [|exact Hr].
       destruct (off + prim_bits (PU w sat) <=? cap) eqn:E; [|reflexivity].
-      cbn [forallb okb acc_ok andb]. rewrite Bool.andb_true_r.
-      apply Bool.orb_true_iff. left. apply Nat.leb_le. apply Nat.leb_le in E. cbn [prim_bits prim_wf] in *. lia.
+      cbn [forallb]. rewrite okb_br; [reflexivity|]. apply Nat.leb_le in E. cbn [prim_bits prim_wf] in *. lia.
   Qed.
 
-  Lemma rd_uint_ok w buf cap off : 1 <= w <= 64 -> cap <= 8 * capB -> log_all okb (rd_uint w buf cap off).
+  Lemma rd_uint_ok w buf cap off : 1 <= w <= 64 -> cap <= 8 * capB -> log_all okb (rd_uint c w buf cap off).
   Proof. intros Hw H. unfold rd_uint, log_all. cbn [snd]. apply rp_log_ok; [cbn [prim_wf]; lia | exact H]. Qed.
 
   Lemma len_width_rng m : 1 <= len_width m <= 64.
@@ -95,15 +111,15 @@ Section DesBounds.
     destruct k as [|k]; [apply Hf; exact H | apply IH; exact H].
   Qed.
 
-  Lemma wd_field_ok D t : Dok (D t) -> Dok (wd_field D t).
+  Lemma wd_field_ok D t : Dok (D t) -> Dok (wd_field c D t).
   Proof.
     intros HD p buf cap off H. unfold wd_field.
     destruct t as [q|e n|e cp|u fs [x|]]; try (apply HD; exact H).
     - apply log_bind; [apply rd_uint_ok; [unfold header_bits; lia | exact H]|]. intros hN _.
       destruct (N.of_nat _ <? hN)%N; [apply log_fail|].
-      apply log_bind; [reflexivity|]. intros _ _.
+      apply log_bind; [apply log_tell; cbn [forallb]; rewrite okb_bp by exact H; reflexivity|]. intros _ _.
       apply log_bind; [apply HD; lia|]. intros [v o] _. apply log_ret.
-    - apply log_bind; [reflexivity|]. intros _ _.
+    - apply log_bind; [apply log_tell; cbn [forallb]; rewrite okb_bp by exact H; reflexivity|]. intros _ _.
       apply log_bind; [apply HD; exact H|]. intros [v o] _. apply log_ret.
   Qed.
 
@@ -124,18 +140,18 @@ Section DesBounds.
     induction t as [q|e n IH|e cp IH|u fs ext IH] using ty_nested_ind; intros Hwf p buf cap off H.
     - cbn [wd_body]. unfold log_all. cbn [snd]. apply rp_log_ok; [exact Hwf | exact H].
     - cbn [wd_body]. apply log_bind.
-      { apply log_tell. cbn [forallb okb acc_ok]. rewrite Nat.leb_refl. reflexivity. }
+      { apply log_tell. cbn [forallb]. rewrite okb_oa by lia. reflexivity. }
       intros _ _. apply log_bind; [apply bulk_arm_ok; [apply wd_field_ok, IH; exact Hwf | exact H]|].
       intros [vs o] _. apply log_ret.
     - cbn [wf_ty] in Hwf. apply andb_prop in Hwf. destruct Hwf as [Hwf _].
       cbn [wd_body]. apply log_bind; [apply rd_uint_ok; [apply len_width_rng | exact H]|]. intros nN _.
-      destruct (N.of_nat cp <? nN)%N eqn:E; [apply log_fail|].
+      destruct (N.of_nat (chk_cap c e cp) <? nN)%N eqn:E; [apply log_fail|].
       apply log_bind.
-      { apply log_tell. cbn [forallb okb acc_ok]. rewrite Bool.andb_true_r. apply Nat.leb_le.
-        apply N.ltb_ge in E. specialize (Hc e cp). lia. }
+      { apply log_tell. cbn [forallb]. rewrite okb_oa; [reflexivity|].
+        apply N.ltb_ge in E. pose proof (chk_cap_le_ov e cp). lia. }
       intros _ _. apply log_bind; [apply bulk_arm_ok; [apply wd_field_ok, IH; exact Hwf | exact H]|].
       intros [vs o] _. apply log_ret.
-    - assert (HF : Forall (fun f => Dok (wd_field (wd_body c) f)) fs).
+    - assert (HF : Forall (fun f => Dok (wd_field c (wd_body c) f)) fs).
       { cbn [wf_ty] in Hwf. apply andb_prop in Hwf. destruct Hwf as [Hwf _]. apply andb_prop in Hwf. destruct Hwf as [Hwf _].
         rewrite forallb_forall in Hwf. rewrite Forall_forall in IH. apply Forall_forall. intros f Hin.
         apply wd_field_ok. apply IH; [exact Hin | apply Hwf; exact Hin]. }
@@ -147,9 +163,30 @@ Section DesBounds.
   Qed.
 
   (* every buffer byte read lies inside the supplied buffer, every object array index below the array's storage size *)
-  Theorem des_in_bounds t prior buf : wf_ty t = true -> length buf = 8 * capB -> log_all okb (walk_des_safe c t prior buf).
+  Lemma des_okp t prior buf : wf_ty t = true -> length buf = 8 * capB -> log_all okb (walk_des_safe c t prior buf).
   Proof.
     intros Hwf H. unfold walk_des_safe. apply log_bind; [apply wd_body_ok; [exact Hwf | lia]|]. intros [v o] _. apply log_ret.
+  Qed.
+
+  Lemma forallb_weaken {A} (P Q : A -> bool) l : (forall a, P a = true -> Q a = true) -> forallb P l = true -> forallb Q l = true.
+  Proof.
+    intros H. induction l as [|a r IH]; cbn [forallb]; [auto|]. intros H1. apply andb_prop in H1. destruct H1 as [Ha Hr].
+    rewrite (H a Ha), (IH Hr). reflexivity.
+  Qed.
+
+  (* every buffer byte read lies inside the supplied buffer, every object array index below the array's storage size *)
+  Theorem des_in_bounds t prior buf : wf_ty t = true -> length buf = 8 * capB -> log_all (acc_ok capB) (walk_des_safe c t prior buf).
+  Proof.
+    intros Hwf H. pose proof (des_okp t prior buf Hwf H) as Hk. unfold log_all in *. revert Hk. apply forallb_weaken.
+    intros a Ha. unfold okb, okp in Ha. apply andb_prop in Ha. apply Ha.
+  Qed.
+
+  (* ... and every pointer handed to a nested routine points into [buffer, buffer + size] (the clamped rendering) *)
+  Theorem des_ptr_in_bounds t prior buf : ptr_clamp c = true -> wf_ty t = true -> length buf = 8 * capB ->
+    log_all (ptr_ok capB) (walk_des_safe c t prior buf).
+  Proof.
+    intros Hp Hwf H. pose proof (des_okp t prior buf Hwf H) as Hk. unfold log_all in *. revert Hk. apply forallb_weaken.
+    intros a Ha. unfold okb, okp in Ha. rewrite Hp in Ha. apply andb_prop in Ha. apply Ha.
   Qed.
 End DesBounds.
 
@@ -267,7 +304,8 @@ Qed.
 Theorem too_small_writes_without_check_refuted :
   exists c t o capB, up_front c = false /\ 8 * capB < bmax t /\ forallb (acc_ok capB) (snd (walk_ser_safe c t o capB)) = false.
 Proof.
-  exists {| ov := fun _ n => n; up_front := false; little := false |}, (TComp false [TPrim (PU 8 true)] None), (CStruct [CPrim (VInt 1)]), 0.
+  exists {| ov := fun _ n => n; up_front := false; little := false; al := dyn_al; len_chk_storage := false; guarded := false; ptr_clamp := true |},
+         (TComp false [TPrim (PU 8 true)] None), (CStruct [CPrim (VInt 1)]), 0.
   split; [reflexivity|]. split; [vm_compute; lia | vm_compute; reflexivity].
 Qed.
 
@@ -277,7 +315,8 @@ Theorem des_in_bounds_override_refuted :
   exists c t prior buf capB, length buf = 8 * capB /\ wf_ty t = true /\
     fst (walk_des_safe c t prior buf) <> Err EBadLen /\ forallb (acc_ok capB) (snd (walk_des_safe c t prior buf)) = false.
 Proof.
-  exists {| ov := fun _ _ => 2; up_front := false; little := false |}, (TComp false [TVar (TPrim (PU 7 true)) 8] None),
+  exists {| ov := fun _ _ => 2; up_front := false; little := false; al := dyn_al; len_chk_storage := false; guarded := false; ptr_clamp := true |},
+         (TComp false [TVar (TPrim (PU 7 true)) 8] None),
          (CStruct [CVar 0 [CPrim (VInt 0); CPrim (VInt 0)]]), (bits_of_bytes [5; 1; 2; 3; 4; 5; 0]%N), 7.
   split; [reflexivity|]. split; [reflexivity|]. split; [vm_compute; discriminate | vm_compute; reflexivity].
 Qed.
@@ -286,7 +325,8 @@ Theorem ser_in_bounds_override_refuted :
   exists c t o capB, bmax t <= 8 * capB /\ wf_ty t = true /\
     fst (walk_ser_safe c t o capB) <> Err EBadLen /\ forallb (acc_ok capB) (snd (walk_ser_safe c t o capB)) = false.
 Proof.
-  exists {| ov := fun _ _ => 2; up_front := false; little := false |}, (TComp false [TVar (TPrim (PU 7 true)) 8] None),
+  exists {| ov := fun _ _ => 2; up_front := false; little := false; al := dyn_al; len_chk_storage := false; guarded := false; ptr_clamp := true |},
+         (TComp false [TVar (TPrim (PU 7 true)) 8] None),
          (CStruct [CVar 5 [CPrim (VInt 0); CPrim (VInt 0)]]), 8.
   split; [vm_compute; lia|]. split; [reflexivity|]. split; [vm_compute; discriminate | vm_compute; reflexivity].
 Qed.
@@ -354,22 +394,36 @@ Proof.
   intros H. unfold w_checked. replace (lim <? off + w) with false by (symmetry; apply Nat.ltb_ge; exact H). apply sstep_raw.
 Qed.
 
+Lemma sstep_store c lim off w : off + w <= lim -> sstep 1 (off + w) (w_store c lim off w).
+Proof. intros H. unfold w_store. destruct (guarded c); [apply sstep_checked; exact H | apply sstep_raw]. Qed.
+
+Lemma sstep_guard c lim off w al : off + w <= lim -> (off + w) mod al = 0 -> sstep al (off + w) (w_guard c lim off w).
+Proof.
+  intros H Hm. unfold w_guard. replace (lim <? off + w) with false by (symmetry; apply Nat.ltb_ge; exact H).
+  rewrite Bool.andb_false_r. apply sstep_ret; [lia | exact Hm].
+Qed.
+
+Lemma guard_exact c lim off w o : fst (w_guard c lim off w) = Ok o -> o = off + w.
+Proof. unfold w_guard. destruct (guarded c && _); [discriminate|]. cbn. intros H. injection H as <-. reflexivity. Qed.
+
 Lemma raw_exact off w o : fst (w_raw off w) = Ok o -> o = off + w.
 Proof. cbn. intros H. injection H as <-. reflexivity. Qed.
 Lemma checked_exact lim off w o : fst (w_checked lim off w) = Ok o -> o = off + w.
 Proof. unfold w_checked. destruct (lim <? off + w); [discriminate | apply raw_exact]. Qed.
+Lemma store_exact c lim off w o : fst (w_store c lim off w) = Ok o -> o = off + w.
+Proof. unfold w_store. destruct (guarded c); [apply checked_exact | apply raw_exact]. Qed.
 
 Lemma ws_prim_sound c p lim off : off + prim_bits p <= lim -> sstep 1 (off + prim_bits p) (ws_prim c p lim off).
 Proof.
   intros H. destruct p; cbn [ws_prim prim_bits] in *;
-    repeat match goal with |- context [if ?b then _ else _] => destruct b end; try apply sstep_raw; apply sstep_checked; exact H.
+    repeat match goal with |- context [if ?b then _ else _] => destruct b end; first [apply sstep_store | apply sstep_checked]; exact H.
 Qed.
 
 Lemma ws_prim_exact c p lim off o : fst (ws_prim c p lim off) = Ok o -> o = off + prim_bits p.
 Proof.
   destruct p; cbn [ws_prim prim_bits];
     repeat match goal with |- context [if ?b then _ else _] => destruct b end; intros H;
-    first [apply raw_exact in H | apply checked_exact in H]; exact H.
+    first [apply store_exact in H | apply checked_exact in H]; exact H.
 Qed.
 
 Lemma ws_pad_sound lim off a : a = 1 \/ a = 8 -> off + padn off a <= lim -> sstep a (off + padn off a) (ws_pad lim off a).
@@ -399,7 +453,7 @@ Qed.
 
 Section SerBounds.
   Variable c : cfg.
-  Hypothesis Hc : cap_ok c.
+  Hypothesis Hc : cap_sound c.
 
   Definition Pb (t : ty) : Prop := wf_ty t = true -> forall o lim off,
     off mod align t = 0 -> off + bmax t <= lim -> sstep (align t) (off + bmax t) (ws_body c t o lim off).
@@ -412,6 +466,9 @@ Section SerBounds.
   Lemma bmax_comp_mod8 u fs ext : bmax (TComp u fs ext) mod 8 = 0.
   Proof. destruct u; cbn [bmax]; [apply (proj1 (pad8_spec _)) | apply fs_mod8]. Qed.
 
+  Lemma nlim_ge o1 sz lim b : o1 + b <= o1 + sz -> o1 + b <= lim -> o1 + b <= (if guarded c then Nat.min (o1 + sz) lim else o1 + sz).
+  Proof. intros H1 H2. destruct (guarded c); lia. Qed.
+
   Lemma field_of_body t : Pb t -> Pf t.
   Proof.
     intros Hb Hwf o lim off Hal Hlim. unfold ws_field, fmax, as_field_max in *.
@@ -420,21 +477,27 @@ Section SerBounds.
       destruct (wf_extent _ _ _ Hwf) as [Hx Hx8]. assert (Hal8 : off mod 8 = 0) by exact Hal. set (t := TComp u fs (Some x)) in *.
       pose proof (bmax_comp_mod8 u fs (Some x)) as Hm8. fold t in Hm8.
       assert (Hsz : 8 * bytes_hi (bmax t) = bmax t) by (unfold bytes_hi; lia).
-      cbn [align] in Hal. unfold header_bits in *.
+      unfold header_bits in *. rewrite Hsz.
       destruct (bmin t =? bmax t).
       + eapply sstep_bind with (E1 := off + 32); [lia | apply (ws_prim_sound c (PU 32 false)); cbn [prim_bits]; lia|].
         intros o1 Ho1 _ _. apply ws_prim_exact in Ho1. cbn [prim_bits] in Ho1. subst o1.
-        apply sstep_tell; [reflexivity|]. rewrite Hsz.
-        eapply sstep_weaken; [|apply Hb; [exact Hwf | unfold t; cbn [align]; lia | lia]]. lia.
-      + apply sstep_tell; [reflexivity|]. rewrite Hsz.
-        eapply sstep_bind with (E1 := off + 32 + bmax t) (al := 8); [lia | apply Hb; [exact Hwf | unfold t; cbn [align]; lia | lia]|].
+        eapply sstep_bind with (E1 := off + 32 + 0) (al := 1); [lia | apply sstep_guard; [lia | apply Nat.mod_1_r]|].
+        intros _ _ _ _. apply sstep_tell; [reflexivity|].
+        eapply sstep_weaken; [|apply Hb; [exact Hwf | unfold t; cbn [align]; lia | apply nlim_ge; lia]]. lia.
+      + eapply sstep_bind with (E1 := off + 32) (al := 1); [lia | apply sstep_guard; [lia | apply Nat.mod_1_r]|].
+        intros o1 Ho1 _ _. apply guard_exact in Ho1. subst o1.
+        eapply sstep_bind with (E1 := off + 32 + 0) (al := 1); [lia | apply sstep_guard; [lia | apply Nat.mod_1_r]|].
+        intros _ _ _ _. apply sstep_tell; [reflexivity|].
+        eapply sstep_bind with (E1 := off + 32 + bmax t) (al := 8);
+          [lia | apply Hb; [exact Hwf | unfold t; cbn [align]; lia | apply nlim_ge; lia]|].
         intros o2 _ Ho2 Hm2.
-        eapply sstep_bind with (E1 := off + 32) (al := 1); [lia | destruct (little c); [apply sstep_raw | apply sstep_checked; lia]|].
+        eapply sstep_bind with (E1 := off + 32) (al := 1); [lia | destruct (little c); [apply sstep_store | apply sstep_checked]; lia|].
         intros _ _ _ _. apply sstep_ret; [lia | exact Hm2].
     - (* sealed *)
       pose proof (bmax_comp_mod8 u fs None) as Hm8. set (t := TComp u fs None) in *.
-      assert (Hsz : 8 * bytes_hi (bmax t) = bmax t) by (unfold bytes_hi; lia).
-      apply sstep_tell; [reflexivity|]. rewrite Hsz. apply Hb; [exact Hwf | exact Hal | lia].
+      assert (Hsz : 8 * bytes_hi (bmax t) = bmax t) by (unfold bytes_hi; lia). rewrite Hsz.
+      eapply sstep_bind with (E1 := off + 0) (al := 1); [lia | apply sstep_guard; [lia | apply Nat.mod_1_r]|].
+      intros _ _ _ _. apply sstep_tell; [reflexivity|]. apply Hb; [exact Hwf | exact Hal | apply nlim_ge; lia].
   Qed.
 
   Lemma ws_list_sound e lim : Pf e -> wf_ty e = true -> forall n l off,
@@ -482,18 +545,21 @@ Section SerBounds.
     - cbn [ws_body bmax align wf_ty] in *. fold (fmax e) in *.
       apply sstep_tell; [cbn [forallb bw_le]; rewrite Nat.leb_refl; reflexivity|].
       destruct (bulk c e) as [w|] eqn:Eb.
-      + destruct (bulk_prim _ _ _ Eb) as [-> Ha1]. rewrite Ha1. apply sstep_raw.
+      + destruct (bulk_prim _ _ _ Eb) as [-> Ha1]. rewrite Ha1. apply sstep_store. exact Hlim.
       + apply ws_list_sound; [apply field_of_body, IH | exact Hwf | exact Hal | exact Hlim].
     - cbn [ws_body bmax align wf_ty] in *. fold (fmax e) in *. apply andb_prop in Hwf. destruct Hwf as [Hwf _].
-      destruct (cp <? o_count o) eqn:En; [apply sstep_fail; discriminate|]. apply Nat.ltb_ge in En.
-      apply sstep_tell; [cbn [forallb bw_le]; rewrite Bool.andb_true_r; apply Nat.leb_le; specialize (Hc e cp); lia|].
+      destruct (chk_cap c e cp <? o_count o) eqn:En; [apply sstep_fail; discriminate|]. apply Nat.ltb_ge in En.
+      pose proof (chk_cap_le_ov c Hc e cp) as Hov.
+      assert (Hcc : chk_cap c e cp <= cp) by (unfold chk_cap; destruct (len_chk_storage c); lia).
+      apply sstep_tell; [cbn [forallb bw_le]; rewrite Bool.andb_true_r; apply Nat.leb_le; lia|].
+      assert (En' : o_count o <= cp) by lia. clear En. rename En' into En.
       pose proof (len_width_mod8 cp) as Hp8. unfold prefix_bits in *.
       assert (Hmul : o_count o * fmax e <= cp * fmax e) by (apply Nat.mul_le_mono_r; exact En).
       eapply sstep_bind with (E1 := off + len_width cp); [lia | apply (ws_prim_sound c (PU (len_width cp) false)); cbn [prim_bits]; lia|].
       intros o1 Ho1 _ _. apply ws_prim_exact in Ho1. cbn [prim_bits] in Ho1. subst o1.
       assert (Hal1 : (off + len_width cp) mod align e = 0) by (destruct (align_cases e) as [Ha|Ha]; rewrite Ha in *; lia).
       destruct (bulk c e) as [w|] eqn:Eb.
-      + destruct (bulk_prim _ _ _ Eb) as [-> Ha1]. rewrite Ha1. eapply sstep_weaken; [|apply sstep_raw]. lia.
+      + destruct (bulk_prim _ _ _ Eb) as [-> Ha1]. rewrite Ha1. eapply sstep_weaken; [|apply sstep_store; lia]. lia.
       + eapply sstep_weaken; [|apply ws_list_sound; [apply field_of_body, IH | exact Hwf | exact Hal1 | lia]]. lia.
     - assert (Hwfs : forallb wf_ty fs = true).
       { cbn [wf_ty] in Hwf. apply andb_prop in Hwf. destruct Hwf as [Hwf _]. apply andb_prop in Hwf. destruct Hwf as [Hwf _]. exact Hwf. }
@@ -540,11 +606,13 @@ Definition R {A B} (f : A -> B) (m : res (A * nat)) (w : res (B * nat)) : Prop :
 
 Section ObsEq.
   Variable c : cfg.
+  (* the rendering compares array lengths against the DSDL capacity (or the storage is not reduced) *)
+  Hypothesis Hk : forall e n, chk_cap c e n = n.
   Notation WB := (Walker.wd_body ref_prims).
   Notation WF := (Walker.wd_field ref_prims WB).
 
   Definition Pob (t : ty) : Prop := forall p buf cap off, R (obs t) (fst (wd_body c t p buf cap off)) (WB t buf cap off).
-  Definition Pof (t : ty) : Prop := forall p buf cap off, R (obs t) (fst (wd_field (wd_body c) t p buf cap off)) (WF t buf cap off).
+  Definition Pof (t : ty) : Prop := forall p buf cap off, R (obs t) (fst (wd_field c (wd_body c) t p buf cap off)) (WF t buf cap off).
 
   Lemma obs_field_of_body t : Pob t -> Pof t.
   Proof.
@@ -562,39 +630,39 @@ Section ObsEq.
   Qed.
 
   Lemma wd_list_obs e : Pof e -> forall n ps buf cap off,
-    R (fun vs => map (obs e) (firstn n vs)) (fst (wd_list (wd_field (wd_body c) e) n ps buf cap off))
+    R (fun vs => map (obs e) (firstn n vs)) (fst (wd_list (wd_field c (wd_body c) e) n ps buf cap off))
       (Walker.wd_list (WF e) n buf cap off).
   Proof.
     intros He. induction n as [|n IH]; intros ps buf cap off; cbn [wd_list Walker.wd_list]; [reflexivity|].
     rewrite fst_bindM. specialize (He (hd dflt ps) buf cap off).
-    destruct (fst (wd_field (wd_body c) e (hd dflt ps) buf cap off)) as [[v o]|er]; cbn [R bind] in *; rewrite He; [|reflexivity].
+    destruct (fst (wd_field c (wd_body c) e (hd dflt ps) buf cap off)) as [[v o]|er]; cbn [R bind] in *; rewrite He; [|reflexivity].
     cbn [bind]. rewrite fst_bindM. specialize (IH (tl ps) buf cap o).
     destruct (fst (wd_list _ n (tl ps) buf cap o)) as [[vs o']|er]; cbn [R bind] in *; rewrite IH; reflexivity.
   Qed.
 
   Lemma arm_fst (e : ty) n ps buf cap off o1 :
     fst (match bulk c e with
-         | Some w => bindM (tell (rd_log cap o1 (n * w))) (fun _ => silence (wd_list (wd_field (wd_body c) e) n ps buf cap off))
-         | None => wd_list (wd_field (wd_body c) e) n ps buf cap off
-         end) = fst (wd_list (wd_field (wd_body c) e) n ps buf cap off).
+         | Some w => bindM (tell (rd_log cap o1 (n * w))) (fun _ => silence (wd_list (wd_field c (wd_body c) e) n ps buf cap off))
+         | None => wd_list (wd_field c (wd_body c) e) n ps buf cap off
+         end) = fst (wd_list (wd_field c (wd_body c) e) n ps buf cap off).
   Proof. destruct (bulk c e); [|reflexivity]. rewrite fst_bindM. reflexivity. Qed.
 
   Lemma wd_fields_obs fs : Forall Pof fs -> forall ps buf cap off,
-    R (obs_fields obs fs) (fst (wd_fields (wd_field (wd_body c)) fs ps buf cap off)) (Walker.wd_fields WF fs buf cap off).
+    R (obs_fields obs fs) (fst (wd_fields (wd_field c (wd_body c)) fs ps buf cap off)) (Walker.wd_fields WF fs buf cap off).
   Proof.
     induction 1 as [|f fs Hf _ IH]; intros ps buf cap off; cbn [wd_fields Walker.wd_fields]; [reflexivity|].
     rewrite fst_bindM. specialize (Hf (hd dflt ps) buf cap (off + padn off (align f))).
-    destruct (fst (wd_field (wd_body c) f (hd dflt ps) buf cap _)) as [[v o]|er]; cbn [R bind] in *; rewrite Hf; [|reflexivity].
+    destruct (fst (wd_field c (wd_body c) f (hd dflt ps) buf cap _)) as [[v o]|er]; cbn [R bind] in *; rewrite Hf; [|reflexivity].
     cbn [bind]. rewrite fst_bindM. specialize (IH (tl ps) buf cap o).
     destruct (fst (wd_fields _ fs (tl ps) buf cap o)) as [[vs o']|er]; cbn [R bind] in *; rewrite IH; reflexivity.
   Qed.
 
   Lemma wd_sel_obs fs : Forall Pof fs -> forall k p buf cap off,
-    R (obs_sel obs fs k) (fst (wd_sel (wd_field (wd_body c)) fs k p buf cap off)) (Walker.wd_sel WF fs k buf cap off).
+    R (obs_sel obs fs k) (fst (wd_sel (wd_field c (wd_body c)) fs k p buf cap off)) (Walker.wd_sel WF fs k buf cap off).
   Proof.
     induction 1 as [|f fs Hf _ IH]; intros k p buf cap off; cbn [wd_sel Walker.wd_sel]; [destruct k; reflexivity|].
     destruct k as [|k]; [|apply IH]. specialize (Hf p buf cap off).
-    destruct (fst (wd_field (wd_body c) f p buf cap off)) as [[v o]|er]; cbn [R obs_sel] in *; exact Hf.
+    destruct (fst (wd_field c (wd_body c) f p buf cap off)) as [[v o]|er]; cbn [R obs_sel] in *; exact Hf.
   Qed.
 
   Theorem wd_obs_eq_walker : forall t, Pob t.
@@ -604,7 +672,7 @@ Section ObsEq.
     - cbn [wd_body Walker.wd_body]. rewrite fst_bindM. cbn [tell fst bind]. rewrite fst_bindM, arm_fst.
       pose proof (wd_list_obs e (obs_field_of_body e IH) n (o_elems p) buf cap off) as H.
       destruct (fst (wd_list _ n (o_elems p) buf cap off)) as [[vs o]|er]; cbn [R bind] in *; rewrite H; reflexivity.
-    - cbn [wd_body Walker.wd_body]. rewrite fst_bindM. unfold rd_uint at 1. cbn [fst bind].
+    - cbn [wd_body Walker.wd_body]. rewrite fst_bindM. unfold rd_uint at 1. cbn [fst bind]. rewrite Hk.
       destruct (N.of_nat cp <? _)%N; [reflexivity|].
       rewrite fst_bindM. cbn [tell fst bind]. rewrite fst_bindM, arm_fst.
       set (n := N.to_nat _).
@@ -630,17 +698,16 @@ Section ObsEq.
     destruct (fst (wd_body c t prior buf (length buf) 0)) as [[v o]|er]; cbn [R bind] in *; rewrite H; reflexivity.
   Qed.
 
-  Theorem des_prior_indep t prior1 prior2 buf :
-    obs_res t (fst (walk_des_safe c t prior1 buf)) = obs_res t (fst (walk_des_safe c t prior2 buf)).
-  Proof. rewrite !des_obs_eq_walker. reflexivity. Qed.
 End ObsEq.
 
 (* =====================================================  pointer formation  ===================================================== *)
-(* `&buffer[offset_bits / 8U]` of _deserialize_composite once implicit zero extension has moved the cursor past the end:
-   struct { uint64 big; In inner } decoded from 2 bytes forms &buffer[8] (F-C-PTR-PAST-END) *)
+(* the pre-fix rendering (`&buffer[offset_bits / 8U]`, fixed in 9be3c74) once implicit zero extension has moved the cursor past
+   the end: struct { uint64 big; In inner } decoded from 2 bytes forms &buffer[8] (F-C-PTR-PAST-END); kept as documentation *)
+Definition old_ptr_cfg : cfg :=
+  {| ov := fun _ n => n; up_front := true; little := false; al := dyn_al; len_chk_storage := false; guarded := false; ptr_clamp := false |}.
 Theorem des_ptr_in_bounds_refuted :
   exists t prior buf capB, wf_ty t = true /\ length buf = 8 * capB /\
-    forallb (ptr_ok capB) (snd (walk_des_safe (std_cfg false) t prior buf)) = false.
+    forallb (ptr_ok capB) (snd (walk_des_safe old_ptr_cfg t prior buf)) = false.
 Proof.
   exists (TComp false [TPrim (PU 64 true); TComp false [TPrim (PU 8 true); TPrim (PU 8 true)] None] None), dflt,
          (bits_of_bytes [1; 2]%N), 2.
@@ -685,7 +752,7 @@ Section Errs.
     induction 1 as [|f fs Hf _ IH]; intros k p buf cap off; cbn [wd_sel]; [destruct k; apply errs_fail; reflexivity|].
     destruct k; [apply Hf | apply IH].
   Qed.
-  Lemma wd_field_errs D t : (forall p buf cap off, errs_in Sd (D t p buf cap off)) -> forall p buf cap off, errs_in Sd (wd_field D t p buf cap off).
+  Lemma wd_field_errs D t : (forall p buf cap off, errs_in Sd (D t p buf cap off)) -> forall p buf cap off, errs_in Sd (wd_field c D t p buf cap off).
   Proof.
     intros H p buf cap off. unfold wd_field. destruct t as [q|e n|e cp|u fs [x|]]; try apply H.
     - apply errs_bind; [apply errs_ok|]. intros hN. destruct (N.of_nat _ <? hN)%N; [apply errs_fail; reflexivity|].
@@ -708,9 +775,9 @@ Section Errs.
     induction t as [q|e n IH|e cp IH|u fs ext IH] using ty_nested_ind; intros p buf cap off; cbn [wd_body].
     - apply errs_ok.
     - apply errs_bind; [apply errs_ok|]. intros _. apply errs_bind; [apply arm_errs, wd_field_errs, IH|]. intros [vs o]. apply errs_ok.
-    - apply errs_bind; [apply errs_ok|]. intros nN. destruct (N.of_nat cp <? nN)%N; [apply errs_fail; reflexivity|].
+    - apply errs_bind; [apply errs_ok|]. intros nN. destruct (N.of_nat (chk_cap c e cp) <? nN)%N; [apply errs_fail; reflexivity|].
       apply errs_bind; [apply errs_ok|]. intros _. apply errs_bind; [apply arm_errs, wd_field_errs, IH|]. intros [vs o]. apply errs_ok.
-    - assert (HF : Forall (fun f => forall p buf cap off, errs_in Sd (wd_field (wd_body c) f p buf cap off)) fs)
+    - assert (HF : Forall (fun f => forall p buf cap off, errs_in Sd (wd_field c (wd_body c) f p buf cap off)) fs)
         by (eapply Forall_impl; [|exact IH]; intros f Hf; apply wd_field_errs; exact Hf).
       destruct u.
       + apply errs_bind; [apply errs_ok|]. intros kN. destruct (N.of_nat (length fs) <=? kN)%N; [apply errs_fail; reflexivity|].
@@ -731,12 +798,16 @@ Section Errs.
   (* ---- serialization ---- *)
   Lemma w_checked_errs lim off w : errs_in Ss (w_checked lim off w).
   Proof. unfold w_checked. destruct (lim <? off + w); [apply errs_fail; reflexivity | apply errs_ok]. Qed.
+  Lemma w_store_errs lim off w : errs_in Ss (w_store c lim off w).
+  Proof. unfold w_store. destruct (guarded c); [apply w_checked_errs | apply errs_ok]. Qed.
+  Lemma w_guard_errs lim off w : errs_in Ss (w_guard c lim off w).
+  Proof. unfold w_guard. destruct (guarded c && _); [apply errs_fail; reflexivity | apply errs_ok]. Qed.
   Lemma ws_pad_errs lim off a : errs_in Ss (ws_pad lim off a).
   Proof. unfold ws_pad. destruct (off mod a =? 0); [apply errs_ok | apply w_checked_errs]. Qed.
   Lemma ws_prim_errs p lim off : errs_in Ss (ws_prim c p lim off).
   Proof.
     destruct p; cbn [ws_prim]; repeat match goal with |- context [if ?b then _ else _] => destruct b end;
-      first [apply errs_ok | apply w_checked_errs].
+      first [apply w_store_errs | apply w_checked_errs].
   Qed.
   Lemma ws_list_errs Se : (forall x off, errs_in Ss (Se x off)) -> forall n l off, errs_in Ss (ws_list Se n l off).
   Proof. intros H. induction n as [|n IH]; intros l off; cbn [ws_list]; [apply errs_ok|]. apply errs_bind; [apply H|]. intros o. apply IH. Qed.
@@ -756,20 +827,23 @@ Section Errs.
   Proof.
     intros H o lim off. unfold ws_field. destruct t as [q|e n|e cp|u fs [x|]]; try apply H.
     - destruct (bmin _ =? bmax _).
-      + apply errs_bind; [apply ws_prim_errs|]. intros o1. apply errs_bind; [apply errs_ok|]. intros _. apply H.
-      + apply errs_bind; [apply errs_ok|]. intros _. apply errs_bind; [apply H|]. intros o2.
-        apply errs_bind; [destruct (little c); [apply errs_ok | apply w_checked_errs]|]. intros _. apply errs_ok.
+      + apply errs_bind; [apply ws_prim_errs|]. intros o1. apply errs_bind; [apply w_guard_errs|]. intros _.
+        apply errs_bind; [apply errs_ok|]. intros _. apply H.
+      + apply errs_bind; [apply w_guard_errs|]. intros o1. apply errs_bind; [apply w_guard_errs|]. intros _.
+        apply errs_bind; [apply errs_ok|]. intros _. apply errs_bind; [apply H|]. intros o2.
+        apply errs_bind; [destruct (little c); [apply w_store_errs | apply w_checked_errs]|]. intros _. apply errs_ok.
+    - apply errs_bind; [apply w_guard_errs|]. intros _. apply errs_bind; [apply errs_ok|]. intros _. apply H.
   Qed.
 
   Theorem ws_body_errs : forall t o lim off, errs_in Ss (ws_body c t o lim off).
   Proof.
     induction t as [q|e n IH|e cp IH|u fs ext IH] using ty_nested_ind; intros o lim off; cbn [ws_body].
     - apply ws_prim_errs.
-    - apply errs_bind; [apply errs_ok|]. intros _. destruct (bulk c e); [apply errs_ok|].
+    - apply errs_bind; [apply errs_ok|]. intros _. destruct (bulk c e); [apply w_store_errs|].
       apply ws_list_errs. intros x off'. apply ws_field_errs, IH.
-    - destruct (cp <? o_count o); [apply errs_fail; reflexivity|].
+    - destruct (chk_cap c e cp <? o_count o); [apply errs_fail; reflexivity|].
       apply errs_bind; [apply errs_ok|]. intros _. apply errs_bind; [apply ws_prim_errs|]. intros o1.
-      destruct (bulk c e); [apply errs_ok|]. apply ws_list_errs. intros x off'. apply ws_field_errs, IH.
+      destruct (bulk c e); [apply w_store_errs|]. apply ws_list_errs. intros x off'. apply ws_field_errs, IH.
     - assert (HF : Forall (fun f => forall o lim off, errs_in Ss (ws_field c (ws_body c) f o lim off)) fs)
         by (eapply Forall_impl; [|exact IH]; intros f Hf; apply ws_field_errs; exact Hf).
       destruct u.
@@ -788,3 +862,199 @@ Section Errs.
     destruct (fst (walk_ser_safe c t o capB)) as [n|e] eqn:E; [left; eauto | right; exists e; split; [reflexivity | apply H; exact E]].
   Qed.
 End Errs.
+
+(* =====================================================  prior independence, every rendering  ===================================================== *)
+(* two runs of the instrumented walker on the same bytes with different destination contents agree on everything observable;
+   no hypothesis on the configuration (holds for the DSDL-capacity and the storage-capacity length checks alike) *)
+Definition map_res {A B} (f : A -> B) (m : res (A * nat)) : res (B * nat) :=
+  match m with Ok (a, o) => Ok (f a, o) | Err e => Err e end.
+
+Lemma ok_pair_inj {A} (a b : A) (o o' : nat) : @Ok (A * nat) (a, o) = Ok (b, o') -> a = b /\ o = o'.
+Proof. intros H. injection H. auto. Qed.
+Lemma err_inj {A} (e e' : derr) : @Err A e = Err e' -> e = e'.
+Proof. intros H. injection H. auto. Qed.
+
+Ltac two_runs H :=
+  match type of H with
+  | map_res _ ?a = map_res _ ?b =>
+      destruct a as [[? ?]|?]; destruct b as [[? ?]|?]; cbn [map_res] in H; try discriminate H;
+      [apply ok_pair_inj in H; destruct H as [H ?] | apply err_inj in H]; subst; cbn [bind map_res ret fst]; try reflexivity; try congruence
+  end.
+
+Section PriorIndep.
+  Variable c : cfg.
+  Definition Pob2 (t : ty) : Prop := forall p1 p2 buf cap off,
+    map_res (obs t) (fst (wd_body c t p1 buf cap off)) = map_res (obs t) (fst (wd_body c t p2 buf cap off)).
+  Definition Pof2 (t : ty) : Prop := forall p1 p2 buf cap off,
+    map_res (obs t) (fst (wd_field c (wd_body c) t p1 buf cap off)) = map_res (obs t) (fst (wd_field c (wd_body c) t p2 buf cap off)).
+
+  Lemma field_of_body2 t : Pob2 t -> Pof2 t.
+  Proof.
+    intros Hb p1 p2 buf cap off. unfold wd_field.
+    destruct t as [q|e n|e cp|u fs [x|]]; try apply Hb.
+    - rewrite ?fst_bindM. unfold rd_uint. cbn [fst bind].
+      destruct (N.of_nat _ <? _)%N; [reflexivity|].
+      rewrite ?fst_bindM. cbn [tell fst bind]. rewrite ?fst_bindM.
+      match goal with |- context [wd_body c ?t p1 buf ?cp ?o] => pose proof (Hb p1 p2 buf cp o) as H end.
+      two_runs H.
+    - rewrite ?fst_bindM. cbn [tell fst bind]. rewrite ?fst_bindM. pose proof (Hb p1 p2 buf cap off) as H. two_runs H.
+  Qed.
+
+  Lemma wd_list2 e : Pof2 e -> forall n ps1 ps2 buf cap off,
+    map_res (fun vs => map (obs e) (firstn n vs)) (fst (wd_list (wd_field c (wd_body c) e) n ps1 buf cap off)) =
+    map_res (fun vs => map (obs e) (firstn n vs)) (fst (wd_list (wd_field c (wd_body c) e) n ps2 buf cap off)).
+  Proof.
+    intros He. induction n as [|n IH]; intros ps1 ps2 buf cap off; cbn [wd_list]; [reflexivity|].
+    rewrite ?fst_bindM. pose proof (He (hd dflt ps1) (hd dflt ps2) buf cap off) as H. two_runs H.
+    rewrite ?fst_bindM. match goal with |- context [wd_list _ n (tl ps1) buf cap ?o] => pose proof (IH (tl ps1) (tl ps2) buf cap o) as H2 end.
+    two_runs H2. cbn [firstn map]. congruence.
+  Qed.
+
+  Lemma wd_fields2 fs : Forall Pof2 fs -> forall ps1 ps2 buf cap off,
+    map_res (obs_fields obs fs) (fst (wd_fields (wd_field c (wd_body c)) fs ps1 buf cap off)) =
+    map_res (obs_fields obs fs) (fst (wd_fields (wd_field c (wd_body c)) fs ps2 buf cap off)).
+  Proof.
+    induction 1 as [|f fs Hf _ IH]; intros ps1 ps2 buf cap off; cbn [wd_fields]; [reflexivity|].
+    rewrite ?fst_bindM. pose proof (Hf (hd dflt ps1) (hd dflt ps2) buf cap (off + padn off (align f))) as H. two_runs H.
+    rewrite ?fst_bindM. match goal with |- context [wd_fields _ fs (tl ps1) buf cap ?o] => pose proof (IH (tl ps1) (tl ps2) buf cap o) as H2 end.
+    two_runs H2. cbn [obs_fields hd tl]. congruence.
+  Qed.
+
+  Lemma wd_sel2 fs : Forall Pof2 fs -> forall k p1 p2 buf cap off,
+    map_res (obs_sel obs fs k) (fst (wd_sel (wd_field c (wd_body c)) fs k p1 buf cap off)) =
+    map_res (obs_sel obs fs k) (fst (wd_sel (wd_field c (wd_body c)) fs k p2 buf cap off)).
+  Proof.
+    induction 1 as [|f fs Hf _ IH]; intros k p1 p2 buf cap off; cbn [wd_sel]; [destruct k; reflexivity|].
+    destruct k as [|k]; [|apply IH]. pose proof (Hf p1 p2 buf cap off) as H. two_runs H. cbn [obs_sel]. congruence.
+  Qed.
+
+  Theorem wd_body2 : forall t, Pob2 t.
+  Proof.
+    induction t as [q|e n IH|e cp IH|u fs ext IH] using ty_nested_ind; intros p1 p2 buf cap off.
+    - reflexivity.
+    - cbn [wd_body]. rewrite ?fst_bindM. cbn [tell fst bind]. rewrite ?fst_bindM, ?arm_fst.
+      pose proof (wd_list2 e (field_of_body2 e IH) n (o_elems p1) (o_elems p2) buf cap off) as H. two_runs H.
+      cbn [obs o_elems]. congruence.
+    - cbn [wd_body]. rewrite ?fst_bindM. unfold rd_uint. cbn [fst bind].
+      destruct (N.of_nat _ <? _)%N; [reflexivity|].
+      rewrite ?fst_bindM. cbn [tell fst bind]. rewrite ?fst_bindM, ?arm_fst.
+      match goal with |- context [wd_list _ ?n (o_elems p1) buf cap ?o] =>
+        pose proof (wd_list2 e (field_of_body2 e IH) n (o_elems p1) (o_elems p2) buf cap o) as H end.
+      two_runs H. cbn [obs o_elems o_count]. congruence.
+    - assert (HF : Forall Pof2 fs) by (eapply Forall_impl; [|exact IH]; intros f Hf; apply field_of_body2; exact Hf).
+      destruct u; cbn [wd_body].
+      + rewrite ?fst_bindM. unfold rd_uint. cbn [fst bind].
+        destruct (N.of_nat (length fs) <=? _)%N; [reflexivity|].
+        rewrite ?fst_bindM.
+        match goal with |- context [wd_sel _ fs ?k (o_cell p1) buf cap ?o] => pose proof (wd_sel2 fs HF k (o_cell p1) (o_cell p2) buf cap o) as H end.
+        two_runs H. cbn [obs o_tag o_cell]. congruence.
+      + rewrite ?fst_bindM. pose proof (wd_fields2 fs HF (o_elems p1) (o_elems p2) buf cap off) as H. two_runs H.
+        cbn [obs o_elems]. congruence.
+  Qed.
+
+  Theorem des_prior_indep t prior1 prior2 buf :
+    obs_res t (fst (walk_des_safe c t prior1 buf)) = obs_res t (fst (walk_des_safe c t prior2 buf)).
+  Proof.
+    unfold walk_des_safe. rewrite ?fst_bindM. pose proof (wd_body2 t prior1 prior2 buf (length buf) 0) as H.
+    destruct (fst (wd_body c t prior1 buf (length buf) 0)) as [[v1 o1]|e1]; destruct (fst (wd_body c t prior2 buf (length buf) 0)) as [[v2 o2]|e2];
+      cbn [map_res] in H; try discriminate H; cbn [bind fst ret obs_res]; congruence.
+  Qed.
+End PriorIndep.
+
+(* =====================================================  serialization: the guarded rendering  ===================================================== *)
+(* with a run-time bound in front of every store (C04_ovrcap_fix.patch: emitted under enable_override_variable_array_capacity) and the
+   length checks against the storage capacity, serialization stays inside ANY buffer and ANY storage: no up-front check, no
+   assumption on the capacities *)
+Lemma bw_le_acc_ok capB l : forallb (bw_le (8 * capB)) l = true -> forallb (acc_ok capB) l = true.
+Proof.
+  induction l as [|a r IH]; [reflexivity|]. cbn [forallb]. intros H. apply andb_prop in H. destruct H as [Ha Hr].
+  rewrite (IH Hr), Bool.andb_true_r. destruct a; cbn [bw_le acc_ok] in *; auto;
+    apply Bool.orb_true_iff; left; apply Nat.leb_le in Ha; apply Nat.leb_le; unfold bytes_hi in Ha; lia.
+Qed.
+
+Section SerGuarded.
+  Variable c : cfg.
+  Hypothesis Hg : guarded c = true.
+  Hypothesis Hs : len_chk_storage c = true.
+  Variable L : nat.
+  Let okg := bw_le L.
+
+  Lemma checked_g lim off w : lim <= L -> log_all okg (w_checked lim off w).
+  Proof.
+    intros H. unfold w_checked. destruct (lim <? off + w) eqn:E; [reflexivity|]. apply Nat.ltb_ge in E.
+    unfold w_raw, log_all. cbn [snd forallb okg bw_le]. rewrite Bool.andb_true_r. apply Nat.leb_le. unfold bytes_hi. lia.
+  Qed.
+  Lemma store_g lim off w : lim <= L -> log_all okg (w_store c lim off w).
+  Proof. intros H. unfold w_store. rewrite Hg. apply checked_g. exact H. Qed.
+  Lemma guard_g lim off w : log_all okg (w_guard c lim off w).
+  Proof. unfold w_guard. destruct (guarded c && _); reflexivity. Qed.
+  Lemma pad_g lim off a : lim <= L -> log_all okg (ws_pad lim off a).
+  Proof. intros H. unfold ws_pad. destruct (off mod a =? 0); [reflexivity | apply checked_g; exact H]. Qed.
+  Lemma prim_g p lim off : lim <= L -> log_all okg (ws_prim c p lim off).
+  Proof.
+    intros H. destruct p; cbn [ws_prim]; repeat match goal with |- context [if ?b then _ else _] => destruct b end;
+      first [apply store_g | apply checked_g]; exact H.
+  Qed.
+
+  Definition Sok (S : cobj -> nat -> nat -> M nat) : Prop := forall o lim off, lim <= L -> log_all okg (S o lim off).
+
+  Lemma list_g Se : (forall x lim off, lim <= L -> log_all okg (Se x lim off)) ->
+    forall lim, lim <= L -> forall n l off, log_all okg (ws_list (fun x off' => Se x lim off') n l off).
+  Proof.
+    intros H lim Hl. induction n as [|n IH]; intros l off; cbn [ws_list]; [reflexivity|].
+    apply log_bind; [apply H; exact Hl|]. intros o _. apply IH.
+  Qed.
+  Lemma fields_g Sr fs : Forall (fun f => Sok (Sr f)) fs -> forall os lim off, lim <= L -> log_all okg (ws_fields Sr fs os lim off).
+  Proof.
+    induction 1 as [|f fs Hf _ IH]; intros os lim off Hl; cbn [ws_fields]; [apply pad_g; exact Hl|].
+    apply log_bind; [apply pad_g; exact Hl|]. intros o _. apply log_bind; [apply Hf; exact Hl|]. intros o' _. apply IH. exact Hl.
+  Qed.
+  Lemma sel_g Sr fs : Forall (fun f => Sok (Sr f)) fs -> forall k o lim off, lim <= L -> log_all okg (ws_sel Sr fs k o lim off).
+  Proof.
+    induction 1 as [|f fs Hf _ IH]; intros k o lim off Hl; cbn [ws_sel]; [destruct k; reflexivity|].
+    destruct k; [apply Hf | apply IH]; exact Hl.
+  Qed.
+  Lemma field_g Sr t : Sok (Sr t) -> Sok (ws_field c Sr t).
+  Proof.
+    intros H o lim off Hl. unfold ws_field. rewrite Hg. destruct t as [q|e n|e cp|u fs [x|]]; try (apply H; exact Hl).
+    - destruct (bmin _ =? bmax _).
+      + apply log_bind; [apply prim_g; exact Hl|]. intros o1 _. apply log_bind; [apply guard_g|]. intros _ _.
+        apply log_bind; [reflexivity|]. intros _ _. apply H. lia.
+      + apply log_bind; [apply guard_g|]. intros o1 _. apply log_bind; [apply guard_g|]. intros _ _.
+        apply log_bind; [reflexivity|]. intros _ _. apply log_bind; [apply H; lia|]. intros o2 _.
+        apply log_bind; [destruct (little c); [apply store_g | apply checked_g]; exact Hl|]. intros _ _. reflexivity.
+    - apply log_bind; [apply guard_g|]. intros _ _. apply log_bind; [reflexivity|]. intros _ _. apply H. lia.
+  Qed.
+
+  Theorem body_g : forall t, Sok (ws_body c t).
+  Proof.
+    induction t as [q|e n IH|e cp IH|u fs ext IH] using ty_nested_ind; intros o lim off Hl; cbn [ws_body].
+    - apply prim_g. exact Hl.
+    - apply log_bind; [apply log_tell; cbn [forallb okg bw_le]; rewrite Nat.leb_refl; reflexivity|]. intros _ _.
+      destruct (bulk c e); [apply store_g; exact Hl|].
+      apply (list_g (fun x lim off' => ws_field c (ws_body c) e x lim off')); [intros x lim' off' Hl'; apply field_g; [exact IH | exact Hl'] | exact Hl].
+    - destruct (chk_cap c e cp <? o_count o) eqn:En; [reflexivity|]. apply Nat.ltb_ge in En.
+      apply log_bind.
+      { apply log_tell. cbn [forallb okg bw_le]. rewrite Bool.andb_true_r. apply Nat.leb_le. unfold chk_cap in En. rewrite Hs in En. lia. }
+      intros _ _. apply log_bind; [apply prim_g; exact Hl|]. intros o1 _.
+      destruct (bulk c e); [apply store_g; exact Hl|].
+      apply (list_g (fun x lim off' => ws_field c (ws_body c) e x lim off')); [intros x lim' off' Hl'; apply field_g; [exact IH | exact Hl'] | exact Hl].
+    - assert (HF : Forall (fun f => Sok (ws_field c (ws_body c) f)) fs)
+        by (eapply Forall_impl; [|exact IH]; intros f Hf; apply field_g; exact Hf).
+      destruct u.
+      + apply log_bind; [apply prim_g; exact Hl|]. intros o1 _. apply log_bind; [apply sel_g; [exact HF | exact Hl]|]. intros o2 _.
+        apply pad_g. exact Hl.
+      + apply fields_g; [exact HF | exact Hl].
+  Qed.
+End SerGuarded.
+
+Theorem ser_in_bounds_guarded c t o capB : guarded c = true -> len_chk_storage c = true ->
+  log_all (acc_ok capB) (walk_ser_safe c t o capB).
+Proof.
+  intros Hg Hs. unfold walk_ser_safe, log_all. destruct (up_front c && _); [reflexivity|].
+  apply bw_le_acc_ok. apply (log_bind (bw_le (8 * capB))); [apply body_g; [exact Hg | exact Hs | lia]|]. intros off _. reflexivity.
+Qed.
+
+(* bytes_hi is the TRANSLATED bits2bytes_ceil filter (Generated/Gen_C01.v) *)
+Theorem bytes_hi_translated n : filter_bits2bytes_ceil (Z.of_nat n) = Some (Z.of_nat (bytes_hi n)).
+Proof. unfold filter_bits2bytes_ceil, bytes_hi. replace (Z.of_nat n <? 0)%Z with false by lia. f_equal. lia. Qed.
